@@ -113,6 +113,21 @@ func runC14(c *core.Ctx) {
 			neg++
 		}
 	}
+	// a type with its own As method (converted value, not identity)
+	{
+		var a, b *gen.AsTarget
+		so, oo := goErr.As(e, &a), errors.As(e, &b)
+		c.Count("as-probes", 1)
+		if so && !oo {
+			c.Violate("as/std-only/custom-As-method", "the standard errors.As succeeds through a type's own As method but ours does not", t.String())
+		}
+		if so && oo && fullyWalkable && a.From != b.From {
+			c.Violate("as/value/custom-As-method", "As through a type's own As method converts another layer than the standard errors.As", fmt.Sprintf("%s\n%q vs %q", t, a.From, b.From))
+		}
+		if !so && oo && fullyWalkable {
+			c.Violate("as/ours-only/custom-As-method", "As matches through an As method where the standard errors.As does not", t.String())
+		}
+	}
 	// interface target
 	{
 		var a, b interface{ Timeout() bool }
